@@ -191,9 +191,9 @@ def gen_for(pid: str, index: int, seed: int, tier: str) -> dict:
     r = index % 12
     q = index // 12
     if pid == "C11":
-        if r < 8:
+        if r < 9:
             d = designgen.gen_injected(rng, P, IK[r])
-        elif r < 10:
+        elif r < 11:
             d = designgen.gen_accept_case(rng, P, AK[(q * 2 + r) % len(AK)])
         else:
             d = designgen.gen_valid(rng, P)
@@ -201,11 +201,14 @@ def gen_for(pid: str, index: int, seed: int, tier: str) -> dict:
         # ordinary designs, plus (for every property) the accept families and the injected-defect stream:
         # on the unchanged tree an injected design is rejected (a cheap observation); if it unexpectedly
         # elaborates it is simulated and `pid`'s monitor decides with a concrete valuation.
-        special = {"C01": ["aliasDouble", "doubleCall"], "C02": ["sameTransMixed", "sameTransConflict"]}.get(pid)
-        if r == 8 and special:
-            d = designgen.gen_injected(rng, P, special[q % 2])
+        special = {"C01": ["aliasDouble", "nonexclTwice", "doubleCall"], "C02": ["sameTransMixed", "sameTransConflict"],
+                   "C08": ["sameTransMixed"]}.get(pid)
+        if r == 8 and pid == "C08":
+            d = designgen.gen_accept_case(rng, P, "same_trans_excl")
+        elif r == 8 and special:
+            d = designgen.gen_injected(rng, P, special[q % len(special)])
         elif r == 9 and special:
-            d = designgen.gen_accept_case(rng, P, "alias_alts" if pid == "C01" else "same_trans_excl")
+            d = designgen.gen_accept_case(rng, P, ["alias_alts", "nonexcl_alts"][q % 2] if pid == "C01" else "same_trans_excl")
         elif r == 10:
             d = designgen.gen_accept_case(rng, P, AK[q % len(AK)])
         elif r == 11:
